@@ -623,4 +623,24 @@ def handleC07MinCheck : List String → Option String
     | _ => some "fail no-automaton"
   | _ => none
 
+/-- Iteration orders tried by the `ord` request. -/
+def ordStreams : List (List Nat) :=
+  [[], List.replicate 24 1, [2, 3, 5, 7, 11, 13, 1, 4, 9, 6, 8, 10], [7, 6, 5, 4, 3, 2, 1, 0, 7, 6, 5, 4],
+   List.replicate 24 1000003, [0, 1, 0, 2, 0, 3, 0, 4, 0, 5, 0, 6]]
+
+-- @handler ord handleOrd
+/-- `ord <k> <prods> <edges>` → `ok <prod0> <trans> <k>` if compile + minimise gives the same automaton
+    under every iteration order in `ordStreams` (the real code: in 8 repetitions), else `differ`. -/
+def handleOrd : List String → Option String
+  | [k, prods, edges] => do
+    let k ← k.toNat?
+    let prods ← Proto.parseInts prods
+    let edges ← parseEdges edges
+    let d : LDfa := ⟨prods, edgesToMap edges, k⟩
+    match compileDfa d [] with
+    | none => some "panic"
+    | some c =>
+      if ordStreams.all (fun ch => compileDfa d ch == some c) then some ("ok " ++ showAuto c " ") else some "differ"
+  | _ => none
+
 end ParolModel
